@@ -6,6 +6,7 @@
 package srv
 
 import (
+	"bufio"
 	"context"
 	"fmt"
 	"io"
@@ -43,7 +44,9 @@ type API struct {
 	ctype   string
 	body    []byte
 	hangup  string // transport-level misbehaviour instead of an answer (see Hangup)
-	served  int    // requests answered since the last Respond
+	meta    Meta   // response metadata besides the status (see Metadata)
+	stream  func(w io.Writer) error
+	served  int // requests answered since the last Respond
 	budget  int
 	clients []*http.Transport
 }
@@ -68,6 +71,7 @@ func (a *API) handle(w http.ResponseWriter, r *http.Request) {
 	rq.Budget = over
 	a.reqs = append(a.reqs, rq)
 	status, ctype, body, hangup := a.status, a.ctype, a.body, a.hangup
+	meta, stream := a.meta, a.stream
 	a.mu.Unlock()
 	if hangup != "" && !over {
 		a.hangUp(w, hangup, status, ctype, body)
@@ -81,10 +85,59 @@ func (a *API) handle(w http.ResponseWriter, r *http.Request) {
 	if ctype != "" {
 		w.Header().Set("Content-Type", ctype)
 	}
+	for k, vs := range meta.Header {
+		for _, v := range vs {
+			w.Header().Add(k, v)
+		}
+	}
+	if stream != nil {
+		w.WriteHeader(status)
+		bw := bufio.NewWriterSize(w, 256<<10)
+		if err := stream(bw); err == nil {
+			bw.Flush()
+		}
+		return
+	}
+	if meta.NoBody {
+		body = nil
+		w.Header().Set("Content-Length", "0")
+	}
 	w.WriteHeader(status)
 	if len(body) > 0 && status != http.StatusNoContent && status != http.StatusNotModified {
+		if meta.Chunked {
+			// flushing before the handler returns makes net/http use chunked transfer encoding
+			half := len(body) / 2
+			w.Write(body[:half])
+			w.(http.Flusher).Flush()
+			w.Write(body[half:])
+			return
+		}
 		w.Write(body)
 	}
+}
+
+// Meta is response metadata other than the status code: extra headers (e.g. the API's
+// "Error" header, Retry-After), chunked transfer of the body, or no body at all.
+type Meta struct {
+	Header  http.Header
+	Chunked bool
+	NoBody  bool
+}
+
+// Metadata sets the response metadata of the following answers (until the next Respond).
+func (a *API) Metadata(m Meta) {
+	a.mu.Lock()
+	a.meta = m
+	a.mu.Unlock()
+}
+
+// RespondStream is Respond with a body produced on the fly by write (large answers are never
+// held in memory by the server).
+func (a *API) RespondStream(status int, ctype string, write func(w io.Writer) error) {
+	a.Respond(status, ctype, nil)
+	a.mu.Lock()
+	a.stream = write
+	a.mu.Unlock()
 }
 
 // URL is the server's root URL (no trailing slash).
@@ -97,6 +150,7 @@ func (a *API) HostPort() string { return a.ts.Listener.Addr().String() }
 func (a *API) Respond(status int, ctype string, body []byte) {
 	a.mu.Lock()
 	a.status, a.ctype, a.body, a.served, a.hangup = status, ctype, body, 0, ""
+	a.meta, a.stream = Meta{}, nil
 	a.mu.Unlock()
 }
 
